@@ -43,8 +43,11 @@ Verdict(e) ==
 \* negated classes (their candidate order is a hash order)
 \* sre turns an alternation of single characters / classes into one class (and removes
 \* duplicates from it), which changes what an index selects
-MergeableAlt(x) == x.r = "alt" /\ \A i \in DOMAIN x.alts :
-                      x.alts[i].r = "lit" \/ (x.alts[i].r = "class" /\ ~x.alts[i].neg)
+\* (... also through a non-capturing group; and a class of one literal becomes that literal: no draw)
+CharLike(y) == y.r = "lit" \/ (y.r = "class" /\ ~y.neg)
+               \/ (y.r = "group" /\ y.kind = "noncap" /\ (y.body.r = "lit" \/ (y.body.r = "class" /\ ~y.body.neg)))
+MergeableAlt(x) == \/ x.r = "alt" /\ \A i \in DOMAIN x.alts : CharLike(x.alts[i])
+                   \/ x.r = "class" /\ ~x.neg /\ Len(x.items) = 1 /\ x.items[1].ci = "lit"
 Drift(e) ==
   /\ e.tape \in {<<"lo">>, <<"hi">>}
   /\ ~HasNeg(e.rx)
